@@ -122,6 +122,11 @@ inductive Res
   | insufficient (loc : List Nat) (n : Int)
 deriving Repr, DecidableEq
 
+/-- `go kc.uploadToKeepServer(sv[nextServer], ...); nextServer++; active++` -/
+def startOne (s : St) (h : s.next < s.sv.length) : St :=
+  { s with active := s.active ++ [s.sv[s.next]], next := s.next + 1,
+           reqLog := (s.sv[s.next], s.round) :: s.reqLog }
+
 /-- the `for active*replicasPerThread < replicasTodo` loop: start uploads. `none` is the
 "Could not write sufficient replicas" return. Fuel = an upper bound on the services left. -/
 def startUploads (c : Cfg) : Nat → St → Option St
@@ -129,16 +134,25 @@ def startUploads (c : Cfg) : Nat → St → Option St
   | fuel+1, s =>
     if ((s.active.length * c.rpt : Nat) : Int) < s.todo then
       if h : s.next < s.sv.length then
-        startUploads c fuel { s with active := s.active ++ [s.sv[s.next]], next := s.next + 1,
-                                     reqLog := (s.sv[s.next], s.round) :: s.reqLog }
+        startUploads c fuel (startOne s h)
       else if s.active = [] ∧ s.retriesRemaining = 0 then none
       else some s
     else some s
 
+/-- insertion into an ascending list -/
+def insertAsc (a : Srv) : List Srv → List Srv
+  | [] => [a]
+  | b :: t => if a ≤ b then a :: b :: t else b :: insertAsc a t
+
+/-- ascending insertion sort (structural recursion, so that examples evaluate in the kernel) -/
+def sortAsc : List Srv → List Srv
+  | [] => []
+  | a :: t => insertAsc a (sortAsc t)
+
 /-- Which in-flight upload answers next: the in-flight services sorted by number, entry
 `p mod n`. (The correspondence driver releases responses by the same rule.) -/
 def choose (active : List Srv) (p : Nat) : Srv :=
-  let sorted := active.mergeSort (fun a b => decide (a ≤ b))
+  let sorted := sortAsc active
   sorted.getD (p % sorted.length) 0
 
 /-- `status := <-uploadStatusChan` and the bookkeeping after it, for the answer of `srv`. -/
